@@ -48,7 +48,8 @@ VALUE_TABLE = {
                           {"datetime": "2020-01-02T03:04:05.5-01:00"}], "text": ["2020-01-02 03:04:05"],
                  "near": ["2020-01-02", "2020-01-02T03:04:05",
                           {"datetime": "2020-01-02T03:04:05.123456"}, {"date": "2020-01-02"}]},
-    "2-tuple": {"good": [{"list": ["1", "2"]}], "text": ["(1;2)", "(a; b)"],
+    "2-tuple": {"good": [{"list": ["1", "2"]}, {"list": [" 39.12", "67.19 "]}, {"tuple": ["a ", " b"]}],
+                "text": ["(1;2)", "(a; b)", "( 3 ; 4 )"],
                 "near": ["(1;2;3)", "1;2", {"list": ["1", "2", "3"]}, "(1)", {"list": [1, 2]}]},
     "3-tuple": {"good": [{"list": ["1", "2", "3"]}], "text": ["(1;2;3)"],
                 "near": ["(1;2)", {"list": ["1", "2"]}]},
@@ -280,6 +281,11 @@ class Gen(object):
             op["sec_card"] = self.card()
         if self.chance(0.12):
             op["prop_card"] = self.card()
+        if self.chance(0.06):
+            # a reference stored by the constructor (what a reader does): unresolved until finalize
+            paths = [s.get_path() for s in self.secs() if s.parent is not None and
+                     kind_of(self.U.top(s)) == "doc"]
+            op["link"] = self.pick(paths) if (paths and not self.fault()) else self.pick(["/a", "/nope/x"])
         return op
 
     def g_new_prop(self):
@@ -789,6 +795,12 @@ class Gen(object):
         ent_i = self.rng.randrange(len(self.U.files))
         return {"op": "load", "f": ent_i}
 
+    def g_damage_file(self):
+        if not self.U.files:
+            return None
+        return {"op": "damage_file", "f": self.rng.randrange(len(self.U.files)),
+                "how": self.pick(["version", "version", "truncate", "empty", "garbage"])}
+
     def g_restart(self):
         d = self.pick(self._valid_docs())
         if d is None or not self.room(len(self.U.subtree(d))):
@@ -944,3 +956,50 @@ def g_lookalike_prop(self):
 
 
 Gen.g_lookalike_prop = g_lookalike_prop
+
+
+def g_merge_again(self):
+    """Merge the same pair of Sections a second time after the copies made by the first merge have
+    drifted away from their sources (the in-flight state a re-resolved link meets).  One op per
+    call, chosen by looking at the state: first merge -> retype a merged copy -> merge again."""
+    from odml import dtypes as _dt
+    pairs = []
+    for ti, xi in self.U.merges:
+        if ti < len(self.U.objs) and xi < len(self.U.objs):
+            t, x = self.U.objs[ti], self.U.objs[xi]
+            if kind_of(t) == "sec" and kind_of(x) == "sec":
+                pairs.append((t, x))
+    if not pairs:
+        secs = [s for s in self.secs() if len(s.properties)]
+        dests = self.secs()
+        if not secs or len(dests) < 2:
+            return None
+        x = self.pick(secs)
+        t = self.pick([d for d in dests if d is not x and not any(a is x for a in self.U.ancestors(d))
+                       and not any(a is d for a in self.U.ancestors(x))])
+        if t is None or not self.room(len(self.U.subtree(x))):
+            return None
+        return {"op": "merge", "t": self.ref(t), "x": self.ref(x), "strict": False}
+    t, x = self.pick(pairs)
+    twins = [(c, p) for p in x.properties for c in t.properties if c.name == p.name]
+    if not twins:
+        return {"op": "create_property", "t": self.ref(x), "name": self.pick(FRESH), "dtype": "string",
+                "values": "abc"}
+    clash = []
+    for c, p in twins:
+        try:
+            for v in p.values:
+                _dt.get(v, c.dtype)
+        except Exception:
+            clash.append((c, p))
+    if clash or self.chance(0.25):
+        return {"op": "merge", "t": self.ref(t), "x": self.ref(x), "strict": self.chance(0.3)}
+    c, p = self.pick(twins)
+    if c.dtype == "string" and c.values and all(str(v).lstrip("-").isdigit() for v in c.values):
+        return {"op": "set_dtype", "x": self.ref(c), "v": "int"}
+    if c.dtype in ("string", None):
+        return {"op": "set_values", "x": self.ref(c), "v": self.pick(["7", {"list": ["1", "2"]}])}
+    return {"op": "set_values", "x": self.ref(p), "v": self.pick(["abc", "x y"])}
+
+
+Gen.g_merge_again = g_merge_again
